@@ -59,6 +59,7 @@ def run_file(desc, prop="C05"):
         pad = "x" * rng.randint(0, 20)
         aval = {"v": rng.randint(10, 99), "pad": pad}
         symlinked = rng.random() < 0.4
+        compress = rng.random() < 0.5
         if symlinked:
             # the source path is a symbolic link to a file kept elsewhere; updates rewrite the TARGET in place (the link itself never changes)
             from uberjob.stores import JsonFileStore
@@ -92,6 +93,15 @@ def run_file(desc, prop="C05"):
             log.append(op)
             F.wait_fs_tick(os.path.join(d, "data") if symlinked else d)
             F.wait_fs_tick(d)
+            if compress:
+                # keep the ORDER of all file times but squeeze them to 0.2 ms apart (fast storage, small files): which values are out of date
+                # is decided by the order of the instants, however close they are
+                paths = [os.path.join(d, "data", "real_a.json")] if symlinked else []
+                paths += [str(stores[k].path) for k in names if os.path.lexists(str(stores[k].path)) and not os.path.islink(str(stores[k].path))]
+                paths = sorted(set(paths), key=lambda p_: os.stat(p_).st_mtime_ns)
+                base_ns = 1_700_000_000_000_000_000 + step * 10_000_000
+                for rank, p_ in enumerate(paths):
+                    os.utime(p_, ns=(base_ns + rank * 200_000, base_ns + rank * 200_000))
             st0 = F.state(stores, names)
             o = F.ood(st0, deps, names)
             want_before = F.scratch_values(aval, names)  # (calls the plain functions itself: taken before the counter snapshot)
